@@ -25,7 +25,7 @@ RULE = (
     "child change; distinct = distinct (tree fingerprint, operation, change kinds)"
 )
 ASSUMPTIONS = ["control construction: Cls(**merged fields) built in the same registry state gives 'the id a fresh construction would get' (id determinism itself is C03's subject)"]
-MUST_SEE = ["int_given_for_float_property", "remodelled_class_duplicate", "rejected_replace_before_duplicate", "value_churn_before_duplicate", "dup_of_node_from_edited_payload", 
+MUST_SEE = ["duplicate_of_node_holding_default_child_objects", "int_given_for_float_property", "remodelled_class_duplicate", "rejected_replace_before_duplicate", "value_churn_before_duplicate", "dup_of_node_from_edited_payload", 
     "dup_tuple_depth_ge2", "dup_shared", "dup_stale_twin_in_tree", "replace_detached_with_live_twin", "replace_noncompare_only",
     "replace_child_equal_twin", "dc_replace", "control_constructions", "dup_noninit_fields",
 ]
@@ -315,3 +315,24 @@ def run_shard(ctx):
         ctx.violation("dup-shares-object", "the duplicate of a node whose class was defined again (more child fields) shares objects with the original", {"class": new_c.__name__, "shared_positions": shared})
     dup_.detach()
     n_.detach()
+
+    # ---- child fields that declare a node (or a tuple of nodes) as their dataclass default: an instance left at the default
+    # holds those very objects, and its duplicate holds copies of them like of any other child ----
+    P = U.P
+    src = (
+        f"{P}DEFAULT_KID = {P}Un(child={P}Leaf(v=1401, s='default'))\n{P}DEFAULT_KIDS = ({P}Leaf(v=1402), {P}Leaf(v=1403))\n\n\n"
+        f"@dataclass(frozen=True)\nclass {P}Defaulted({P}Expr):\n    v: int = 0\n    kid: {P}Expr = {P}DEFAULT_KID\n    kids: tuple[{P}Expr, ...] = {P}DEFAULT_KIDS\n    other: {P}Expr | None = None\n"
+    )
+    exec(compile(src, "<c14 default kid>", "exec", dont_inherit=True), U.module.__dict__)
+    DK = U.module.__dict__[f"{P}Defaulted"]
+    dkid, dkids = U.module.__dict__[f"{P}DEFAULT_KID"], U.module.__dict__[f"{P}DEFAULT_KIDS"]
+    for label, node in (("left at the defaults", DK(v=1)), ("defaults given explicitly elsewhere", DK(v=2, kid=U.cls[f"{P}Leaf"](v=9), other=dkid)), ("one default kept", DK(v=3, kids=(U.cls[f"{P}Leaf"](v=8),)))):
+        dup_ = node.duplicate()
+        ctx.evaluations += 1
+        ctx.count("duplicate_of_node_holding_default_child_objects")
+        orig_objs = {id(x.node) for x in node.dfs()} | {id(node)}
+        shared = [type(x.node).__name__ for x in dup_.dfs() if id(x.node) in orig_objs]
+        if shared or dup_ is node or not (dup_ == node) or dup_.content_id != node.content_id:
+            ctx.violation("dup-shares-object", f"the duplicate of a node whose child fields hold the objects declared as field defaults ({label}) shares nodes with the original or is not == to it", {"shared_classes": shared, "equal": dup_ == node})
+        dup_.detach_self()
+        node.detach_self()
